@@ -379,6 +379,7 @@ func c12Run(c *Ctx) {
 	Flags{}.Apply()
 	// state carried from line to line (a shared list of namespace-bearing keys, a remembered database): sequences of
 	// twin lines in one process
+	wordsInOtherRoles(c, "C12")
 	twinHistories(c, "C12", []Flags{{W: true}, {W: true, N: true, B: true, I: true, R: "<x>", F: []string{"shop"}}, {W: true, Y: true}})
 }
 
@@ -401,7 +402,7 @@ func nsLoc(p string) string {
 func init() {
 	register(&PropDef{
 		ID: "C12", Level: "exploration",
-		Rule:        "with --redactNamespaces on (x {N,B,I on/off} x 3 replacement texts) and, for comparison, off: (1) G at 0 deviations: every declared verb / slot x 4 gates x 6 containers (command, originatingCommand next to getMore, cmd of an error report with and without attr.ns), and <=1 non-default production; (2) every namespace-bearing stage form ($lookup both forms, $graphLookup, $unionWith string / document, $merge string / into string / into {db,coll}, $out string / {db,coll}) at nesting depth 0..3 under every combination of $facet / $lookup.pipeline / $unionWith.pipeline x gates x containers; (3) lines of other components with attr.ns; name sets: ASCII, Unicode, dotted collection names, names that are prefixes of each other, names needing JSON escapes. Oracles: (a) no planted name component occurs anywhere in the emitted line; (b) every namespace position holds the component-wise pseudonym of its name, the same in all fields and on all lines seen by the worker - a generic placeholder there is reported under its own oracle id; (c) the outputs with and without the flag, walked in parallel with the labelled input, differ at namespace positions only. distinct = distinct input lines" + "; name set 6: names shaped like pseudonyms under each replacement text" + twinRule,
+		Rule:        "with --redactNamespaces on (x {N,B,I on/off} x 3 replacement texts) and, for comparison, off: (1) G at 0 deviations: every declared verb / slot x 4 gates x 6 containers (command, originatingCommand next to getMore, cmd of an error report with and without attr.ns), and <=1 non-default production; (2) every namespace-bearing stage form ($lookup both forms, $graphLookup, $unionWith string / document, $merge string / into string / into {db,coll}, $out string / {db,coll}) at nesting depth 0..3 under every combination of $facet / $lookup.pipeline / $unionWith.pipeline x gates x containers; (3) lines of other components with attr.ns; name sets: ASCII, Unicode, dotted collection names, names that are prefixes of each other, names needing JSON escapes. Oracles: (a) no planted name component occurs anywhere in the emitted line; (b) every namespace position holds the component-wise pseudonym of its name, the same in all fields and on all lines seen by the worker - a generic placeholder there is reported under its own oracle id; (c) the outputs with and without the flag, walked in parallel with the labelled input, differ at namespace positions only. distinct = distinct input lines" + "; name set 6: names shaped like pseudonyms under each replacement text" + twinRule + wordsRule,
 		Assumptions: []string{"the pseudonym function itself is C13's subject; here its value is taken from the tool for the same replacement text", "verbs the tool does not declare are out of scope"},
 		Run:         c12Run,
 	})
